@@ -2527,11 +2527,16 @@ class DiskObjectStore(PackBasedObjectStore):
                 if len(prefix) % 2 == 0
                 else binascii.unhexlify(prefix[:-1])
             )
-            for bin_sha in p.index.iter_prefix(bin_prefix):
-                sha = sha_to_hex(bin_sha)
-                if sha.startswith(prefix) and sha not in seen:
-                    seen.add(sha)
-                    yield sha
+            try:
+                for bin_sha in p.index.iter_prefix(bin_prefix):
+                    sha = sha_to_hex(bin_sha)
+                    if sha.startswith(prefix) and sha not in seen:
+                        seen.add(sha)
+                        yield sha
+            except PackFileDisappeared as exc:
+                # Removed by a concurrent repack; its objects are in a pack
+                # picked up by the rescan that self.packs performed.
+                self._evict_pack(exc.obj)
         for alternate in self.alternates:
             for sha in alternate.iter_prefix(prefix):
                 if sha not in seen:
